@@ -34,6 +34,16 @@ var VerifSink func(op *Operation, ev VerifEvent)
 
 var verifSeq uint64
 
+// A scheduler gate for the harness: called by the run loop after it has released op.mu and before it
+// blocks in select. Blocking here holds the loop exactly where a wake-up could be lost.
+var VerifGate func(op *Operation, point string)
+
+func verifGate(op *Operation, point string) {
+	if g := VerifGate; g != nil {
+		g(op, point)
+	}
+}
+
 // Allocates a position in the event order for an event the harness logs itself (e.g. around a
 // blocking receive from Stalled()).
 func VerifNextSeq() uint64 { return atomic.AddUint64(&verifSeq, 1) }
